@@ -119,6 +119,16 @@ def check_cascade_semantics(ctx, rid, casc, pred, helpers):
         raise AnalysisError(f"the correction cascade is outside the evaluation whitelist: {exc}") from exc
 
 
+# What each program is known to do to the contraction coefficients it writes into a Molden file (comments of
+# iodata/formats/molden.py; Molden FAQ): (l, kind) -> (powers n of the primitive normalisation N(a; n) the coefficients
+# were multiplied with, or None; square of an additional numeric factor).  The helper divides this out again.
+VENDOR_FACTORS = {
+    "_fix_obasis_orca": {(0, "c"): (("0", "0", "0"), 1), (1, "c"): (("1", "0", "0"), 1), (2, "p"): (("1", "1", "0"), 1), (3, "p"): (("1", "1", "1"), 1), (4, "p"): (("2", "1", "1"), 1), (5, "p"): (("5", "0", "0"), 1)},
+    "_fix_obasis_psi4": {(0, "c"): (("0", "0", "0"), 1), (1, "c"): (("1", "0", "0"), 1), (2, "p"): (("1", "1", "0"), 3), (3, "p"): (("1", "1", "1"), 15)},
+    "_fix_obasis_turbomole": {(2, "c"): (None, 3), (3, "c"): (None, 15), (4, "c"): (None, 105)},
+}
+
+
 def check_helper_uniformity(ctx, rid, helpers):
     """Each basis-correction helper, evaluated on abstract shells with two primitives: within a shell either every
     primitive is rescaled or none is (a correction that reaches only some primitives of a contraction is never right),
@@ -173,10 +183,40 @@ def check_helper_uniformity(ctx, rid, helpers):
                 if any(changed) and not all(changed):
                     bad = f"shell l={l}{k}: primitive {changed.index(True)} is rescaled, primitive {changed.index(False)} is not (a contraction of several primitives is corrected only in part)"
                     break
+            # the factors themselves: what each vendor is known to do (VENDOR_FACTORS), per shell type
+            table = VENDOR_FACTORS.get(h.name)
+            if bad is None and table is not None:
+                for (l, k), so, b in zip(kinds, oshells, before):
+                    i_sh = kinds.index((l, k))
+                    for ip in range(2):
+                        r = Sym.const(so.fields["coeffs"][ip, 0]) / Sym.const(b[ip, 0])
+                        nvec, c2 = table.get((l, k), (None, 1))
+                        if len(r.terms) != 1:
+                            bad = f"shell l={l}{k}: the correction factor `{r!r}` is not a single product"
+                            break
+                        (mono, coef), = r.terms.items()
+                        want_atom = None if nvec is None else f"N({Sym.const(shells[i_sh].fields['exponents'][ip])!r};{','.join(nvec)})"
+                        got_atoms = sorted((a, p_) for a, p_ in mono)
+                        want_atoms = [] if want_atom is None else [(want_atom, -1)]
+                        if got_atoms != want_atoms:
+                            bad = f"shell l={l}{k}: coefficients are multiplied by `{r!r}`; {h.name.replace('_fix_obasis_', '')} files need " + ("no primitive normalisation factor" if want_atom is None else f"1 / N(exponent; powers {'/'.join(nvec)})") + (" (the correction is applied in the wrong direction)" if got_atoms == [(a_, -p_) for a_, p_ in want_atoms] else "")
+                            break
+                        if abs(float(coef) ** 2 - c2) > 1e-9 * c2:
+                            bad = f"shell l={l}{k}: numeric factor {float(coef):.6g}, expected sqrt({c2})"
+                            break
+                    if bad:
+                        break
+                if bad is None:
+                    conv = out.fields.get("conventions")
+                    if h.name == "_fix_obasis_orca":
+                        if conv is basis.fields["conventions"] or not isinstance(conv, dict) or (2, "p") not in conv or (5, "p") not in conv:
+                            bad = "the corrected basis does not carry ORCA's own sign conventions (the table built in the helper)"
+                    elif conv is not basis.fields["conventions"]:
+                        bad = "the corrected basis does not keep the conventions of the basis it was given"
             if bad:
                 ctx.violate(rid, f"{h.name}: {bad}", h, h.node, construct=f"{h.name}: {bad}"[:200])
             else:
-                ctx.ok(rid, f"{h.name} on 9 abstract two-primitive shells: {touched} shell types rescaled, each in all its primitives; exponents, shell count and the input basis untouched", f"{h.module.relpath}:{h.lineno}")
+                ctx.ok(rid, f"{h.name} on 9 abstract two-primitive shells: {touched} shell types rescaled, each in all its primitives" + (", by the vendor's known factors" if table is not None else "") + "; exponents, shell count and the input basis untouched", f"{h.module.relpath}:{h.lineno}")
     except NotSymbolic as exc:
         raise AnalysisError(f"a correction helper is outside the evaluation whitelist: {exc}") from exc
     ctx.floor(rid, n, 3, "basis-correction helpers evaluated")
